@@ -270,7 +270,6 @@ def rotate_to(src, tgt):
 
 # distributed helpers
 
-@cache
 def is_distributed():
     return distributed.is_initialized() and distributed.get_world_size() > 1
 
